@@ -155,10 +155,11 @@ abbrev K13 (s : S) : Prop := s.cleaned = true → rsHeld s = false ∧ liveCount
 /-- K14: only the newest client stream can be live, and then the current upstream request owns it -/
 abbrev K14 (s : S) : Prop := streamsOk s = true
 /-- K15: during the response pass the client stream is gone, or it is the open stream of a streamed response whose
-head was accepted; an upstream reset can only be pending while the worker waits for / writes the rest of a streamed response -/
+head was accepted; an upstream reset can only be pending while the worker waits for / writes the rest of a streamed response,
+or ([proxy7]) while it runs the sender filters of a streamed response whose head it accepted (phase UpFilter) -/
 abbrev K15 (s : S) : Prop := s.cleaned = false → upPhase s.phase = true →
   (liveCount s.streams = 0 ∨ (s.urr = true ∧ respHasMore s.resp = true)) ∧ s.resp.isSome = true ∧
-  (s.upReset = true → s.phase = .UpRecvData ∨ s.phase = .UpRecvTrailer) ∧
+  (s.upReset = true → s.phase = .UpRecvData ∨ s.phase = .UpRecvTrailer ∨ (s.phase = .UpFilter ∧ s.urr = true)) ∧   -- [proxy7] reset during UpFilter
   ((s.perTry = false ∧ s.global = false) ∨ s.urr = true) ∧
   (s.respStarted = (s.phase == .UpRecvData || s.phase == .UpRecvTrailer)) ∧
   (s.phase = .UpRecvData → respHasMore s.resp = true) ∧
